@@ -1,12 +1,13 @@
 // C12: functions of the VM's limit checks for the Go->Lean translator of gofuncs.go (appended to its spec
 // list; a function outside the supported subset is reported as NOT TRANSLATED and only breaks the theorems
 // of lean/NeoModel/Proofs/GoFuncs/C12.lean that mention it). toInt / CheckIntegerSize are translated by the
-// C13 specs (vmToInt, vmCheckIntegerSize); addPicoGasInternal writes a field and is outside the subset
-// (its order and operator are in the VmOrder table instead).
+// C13 specs (vmToInt, vmCheckIntegerSize) — never list them here again: a duplicate definition breaks
+// Generated/GoFuncs.lean for everybody.
 package main
 
 func init() {
 	gfSpecs = append(gfSpecs,
 		gfSpec{Pkg: "./pkg/vm", Recv: "VM", Func: "checkInvocationStackSize", Lean: "vmCheckInvocationStackSize"},
+		gfSpec{Pkg: "./pkg/vm", Recv: "VM", Func: "addPicoGasInternal", Lean: "vmAddPicoGasInternal"},
 	)
 }
